@@ -1,21 +1,44 @@
-(* C17 — pins (theorems in Proofs/C17Main.v to follow). *)
-From Coq Require Import String Ascii ZArith QArith List Bool.
-From RV Require Import Base.Val Gen.Clash Model.Clash.
+(* C17 — clash detection equals the pairwise van-der-Waals definition.  Property theorems only. *)
+From Coq Require Import String Ascii ZArith QArith List Bool Arith.
+From RV Require Import Base.Val Base.PyStr Gen.Clash Model.Geom Model.Clash Proofs.C17Main.
 Import ListNotations.
+Local Close Scope Q_scope.
 
 Lemma C17_pin_shapes : find_clashes_as_modelled = true /\ report_maxima_are_running_maxima = true.
 Proof. split; reflexivity. Qed.
 Print Assumptions C17_pin_shapes.
 
-(* pin: the four radii and the MolProbity margin the property names *)
 Lemma C17_pin_radii :
   radii = [("C"%string, 3 # 5); ("N"%string, 27 # 50); ("O"%string, 53 # 100); ("P"%string, 47 # 50)] /\ molprobity_margin = 1 # 2.
 Proof. split; reflexivity. Qed.
 Print Assumptions C17_pin_radii.
 
-(* the neighbour-search radius is large enough for every pair of atom types, in both modes *)
-Theorem C17_radius_complete :
-  forallb (fun a => forallb (fun b => forallb (fun mp =>
-     Qle_bool (snd a + snd b + mp) (query_radius_factor * max_radius + mp)) [0; molprobity_margin]) radii) radii = true.
-Proof. vm_compute. reflexivity. Qed.
+(* the neighbour-search radius 2*max radius (+0.5) is large enough for every pair of atom types, in both modes *)
+Theorem C17_radius_complete : forall sa ra sb rb (mp : bool), In (sa, ra) radii -> In (sb, rb) radii ->
+    (0 <= ra + rb + (if mp then molprobity_margin else 0))%Q /\
+    (ra + rb + (if mp then molprobity_margin else 0) <= query_radius_factor * max_radius + (if mp then molprobity_margin else 0))%Q.
+Proof. exact radius_table. Qed.
 Print Assumptions C17_radius_complete.
+
+(* for two typed atoms, the answer for a candidate pair is the pairwise definition: option filters, distance <= sum of radii
+   (+ margin), occupancy sum 1 unless ignored — the search-radius pre-filter never changes it *)
+Theorem C17_candidate_is_definition : forall o a b ca ta cb tb ra rb,
+    a_name a = ca :: ta -> a_name b = cb :: tb -> radius_of_char ca = Some ra -> radius_of_char cb = Some rb ->
+    clash o a b = Ok (clash_def o ra rb a b).
+Proof. exact clash_is_definition. Qed.
+Print Assumptions C17_candidate_is_definition.
+
+(* the list: exactly the index pairs i < j whose atoms are considered and answer true ... *)
+Theorem C17_listed_iff : forall o l res, clashes_from o 0 l = Ok res ->
+    forall i j, In (i, j) res <->
+      exists a b, i < j /\ nth_error l i = Some a /\ nth_error l j = Some b /\ pair_ok o a b = true.
+Proof.
+  intros o l res H i j. rewrite (listed_iff o l 0 res H i j). rewrite !Nat.sub_0_r.
+  split; intros (a & b & X); exists a, b; intuition lia.
+Qed.
+Print Assumptions C17_listed_iff.
+
+(* ... each pair once *)
+Theorem C17_listed_once : forall o l res, clashes_from o 0 l = Ok res -> NoDup res.
+Proof. intros o l res H. exact (proj1 (listed_once o l 0 res H)). Qed.
+Print Assumptions C17_listed_once.
